@@ -209,10 +209,12 @@ func TestC09(t *testing.T) {
 		staleNotModified(t, r, dir)
 		handWrittenFiles(r, dir)
 		wrappedVersions(t, r, dir)
+		sparseBodies(t, r, dir)
+		failedActivate(t, r, dir)
 		differentVAtOnce(t, r, dir)
 		auditFailureIsNotNotModified(t, r, dir)
 	}
-	r.Require("out_of_range_versions", "overlapping_polls_with_different_v", "conditional_gets_with_failing_audit", "hand_written_file_entries", "post_quiescence_conditional_gets", "concurrent_conditional_gets", "histories", "db_notchanged", "db_value", "http_notchanged", "http_value", "file_notchanged", "file_value", "denied_checks",
+	r.Require("sparse_request_bodies", "conditional_gets_after_a_failed_activation", "out_of_range_versions", "overlapping_polls_with_different_v", "conditional_gets_with_failing_audit", "hand_written_file_entries", "post_quiescence_conditional_gets", "concurrent_conditional_gets", "histories", "db_notchanged", "db_value", "http_notchanged", "http_value", "file_notchanged", "file_value", "denied_checks",
 		"shape_reactivated_older_version", "shape_v_existing_inactive", "shape_v_names_deleted_version", "shape_v_beyond_latest")
 	r.Rule("seeded histories of 15-30 put/activate/delete-version/delete steps over 2 names; after every step conditional gets with V in {0, 1, active, every version number up to latest (existing and deleted), latest+1, 2^32-1} on both names and an absent one, through db.GetConditional, HTTP handler + setec.Client, and FileClient on a file generated from the model; plus a caller without get permission. Distinct = (front end, class of V, model outcome)")
 }
@@ -612,4 +614,114 @@ func wrappedVersions(t *testing.T, r *evid.Run, dir string) {
 		}
 	}
 	r.Distinct("out-of-range versions")
+}
+
+// sparseBodies: hand-made requests that leave members out (no Version, no UpdateIfChanged), sent between the
+// fully spelled-out polls of ordinary clients. What a request does not say is zero / false - never what
+// some earlier request said.
+func sparseBodies(t *testing.T, r *evid.Run, dir string) {
+	d, err := realdb.Open(filepath.Join(dir, "sparse.db"), realdb.DummyKey("c09sp"))
+	if err != nil {
+		t.Fatal(err)
+	}
+	su := realdb.Super()
+	for v := 1; v <= 3; v++ {
+		d.Put(su, "polled", []byte(fmt.Sprintf("bytes-of-%d", v)))
+	}
+	d.Activate(su, "polled", 2)
+	srv, err := httpdrv.New(d)
+	if err != nil {
+		t.Fatal(err)
+	}
+	srv.SetWho(addr, httpdrv.Who{Login: "ok@verif", Node: "ok", Rules: []refmodel.Rule{{Actions: []string{"get"}, Patterns: []string{"*"}}}})
+	post := func(body string) httpdrv.Reply {
+		return srv.Raw("POST", "/api/get", addr, httpdrv.GoodHeaders, []byte(body))
+	}
+	value := func(rep httpdrv.Reply, ver uint32) bool {
+		var sv api.SecretValue
+		return rep.Status == 200 && json.Unmarshal(rep.Body, &sv) == nil && uint32(sv.Version) == ver && string(sv.Value) == fmt.Sprintf("bytes-of-%d", ver)
+	}
+	rng := r.Rand(90909)
+	for i := 0; i < r.N(400, 5000); i++ {
+		// an ordinary, fully spelled-out poll by a client that is up to date (304) or not (200)
+		known := []int{2, 1, 3, 2}[rng.IntN(4)]
+		if rep := post(fmt.Sprintf(`{"Name":"polled","Version":%d,"UpdateIfChanged":true}`, known)); (known == 2) != (rep.Status == 304) {
+			r.Violation("http-conditional-get-wrong", -1, fmt.Sprintf("poll with V=%d (active 2) answered %d", known, rep.Status), nil)
+			return
+		}
+		kind := rng.IntN(4)
+		var rep httpdrv.Reply
+		var want uint32 = 2
+		var what string
+		switch kind {
+		case 0:
+			what = `{"Name":"polled"}`
+		case 1:
+			what = `{"Name":"polled","UpdateIfChanged":true}`
+		case 2:
+			what = `{"UpdateIfChanged":true,"Name":"polled","Version":0}`
+		case 3:
+			what, want = `{"Name":"polled","Version":3}`, 3 // a plain get of version 3: no condition was stated
+		}
+		rep = post(what)
+		r.Eval(1)
+		r.Count("sparse_request_bodies", 1)
+		r.Distinct(fmt.Sprintf("sparse body kind %d", kind))
+		if !value(rep, want) {
+			key := "http-value-although-unchanged"
+			if rep.Status == 304 {
+				key = "http-not-modified-although-changed"
+			}
+			r.Violation(key, -1, fmt.Sprintf("after a poll with V=%d, the request %s (which states no condition that holds) was answered %d %s; want 200 with version %d", known, what, rep.Status, rep.Body, want), nil)
+			return
+		}
+	}
+}
+
+// failedActivate: an activation whose save fails has not happened: conditional gets keep answering for the
+// version that is still active, in the running process as after a restart.
+func failedActivate(t *testing.T, r *evid.Run, dir string) {
+	os.MkdirAll(filepath.Join(dir, "failact"), 0o700)
+	path := filepath.Join(dir, "failact", "db")
+	d, err := realdb.Open(path, realdb.DummyKey("c09fa"))
+	if err != nil {
+		t.Fatal(err)
+	}
+	su := realdb.Super()
+	for v := 1; v <= 3; v++ {
+		d.Put(su, "polled", []byte(fmt.Sprintf("bytes-of-%d", v)))
+	}
+	active := uint32(1)
+	rng := r.Rand(80808)
+	for i := 0; i < r.N(60, 600); i++ {
+		target := uint32(1 + rng.IntN(3))
+		fails := rng.IntN(2) == 0
+		var aerr error
+		if fails {
+			realdb.BreakDir(path, func() { aerr = d.Activate(su, "polled", api.SecretVersion(target)) })
+		} else {
+			aerr = d.Activate(su, "polled", api.SecretVersion(target))
+		}
+		if aerr == nil {
+			active = target
+		}
+		for _, v := range []uint32{1, 2, 3} {
+			sv, err := d.GetConditional(su, "polled", api.SecretVersion(v))
+			r.Eval(1)
+			r.Count("conditional_gets_after_a_failed_activation", 1)
+			c := realdb.Classify(err)
+			ok := (v == active && c == refmodel.NotChanged) || (v != active && c == refmodel.OK && sv != nil && uint32(sv.Version) == active && string(sv.Value) == fmt.Sprintf("bytes-of-%d", active))
+			if !ok {
+				key := "db-conditional-get-wrong"
+				if c == refmodel.NotChanged {
+					key = "db-not-modified-although-changed"
+				} else if c == refmodel.OK && v == active {
+					key = "db-value-although-unchanged"
+				}
+				r.Violation(key, -1, fmt.Sprintf("activate %d (file system failing=%t) returned %v, so version %d is active; get-if-changed V=%d answered %s %v", target, fails, aerr, active, v, c, sv), nil)
+				return
+			}
+		}
+	}
+	r.Distinct("conditional gets after failed activations")
 }
